@@ -249,7 +249,7 @@ func (sp *spec) oracle(o *Observed) string {
 	}
 	for _, a := range o.Anomalies {
 		if strings.Contains(a, "did not take an event") || strings.Contains(a, "although nothing asked") || strings.Contains(a, "did not return") ||
-			strings.Contains(a, "has not closed it") || strings.Contains(a, "of the group:") {
+			strings.Contains(a, "has not closed it") || strings.Contains(a, "of the group:") || strings.Contains(a, "registry mutex of the API is held for good") {
 			return a
 		}
 	}
